@@ -202,6 +202,15 @@ def run_case(case):
             label = "%s x %g" % (label, UMAGS[mi])
             ua = [a * UMAGS[mi] for a in ua]
         u = U.face_from_arrays(g.mesh, ua)
+        if vi:
+            # the velocity as a user would build it: a difference / sum of face variables (exact for these operands)
+            u = (U.face_from_arrays(g.mesh, [2.0 * a for a in ua]) - u) + U.zero_face(g.mesh)
+            if not all(np.array_equal(getattr(u, c_), a_) for c_, a_ in zip(U.COMP, ua)):
+                k = "C07:velocity_arithmetic:%s" % g.cls
+                if k not in seen:
+                    seen.add(k)
+                    F.append({"key": k, "msg": "%s: the velocity 2u - u + 0 built with FaceVariable arithmetic is not u (a discretely divergence-free field would stop being one)" % gid, "detail": {"grid": gid}})
+                continue
         # precondition: discretely divergence-free
         div = np.asarray(pf.divergenceTerm(u), dtype=float)[rows_in]
         usc = max((float(np.max(np.abs(a))) for a in ua), default=0.0)
